@@ -11,6 +11,26 @@ from .core import BITS, F3, I8, R11, is_signed, promoted, tmax, tmin
 # factor grid of the property's quantifier (N, D): factor = N/D
 FACTORS = [(1, 1), (2, 1), (3, 1), (10, 1), (1000, 1), (1, 2), (1, 3), (1, 1000), (3, 2), (2, 3),
            (5, 9), (127, 5000), (2 ** 31, 1), (1, 2 ** 31)]
+# round 3: factors that separate the source, common and target types (representable in C but not in S
+# or T: 200 for 8-bit, 40000/65537 for 16-bit, 3*10^9 for 32-bit, 2^63 / the prime 2^64-59 for 64-bit),
+# a value between 1000 and 2^31 and one above 2^32, their reciprocals, and rationals with both parts large
+_BIG = [200, 40000, 65537, 3 * 10 ** 9, 10 ** 12, 2 ** 63, 2 ** 64 - 59]
+FACTORS += [(n, 1) for n in _BIG] + [(1, n) for n in _BIG] + [(2 ** 31 - 1, 2 ** 31 - 3), (1250, 381)]
+
+# unit shapes (gap: only Meters -> anonymous scaled unit was used): (label, source unit type, target slot
+# type or None for the anonymous Meters*D/N, N, D).  Index 0 is the default shape of the main grid.
+KMPH = "decltype(au::Kilo<au::Meters>{} / au::Hours{})"
+SHAPES = [
+    ("", "au::Meters", None, None, None),
+    ("Feet->inches[maker]", "au::Feet", "decltype(au::inches)", 12, 1),
+    ("Inches->feet[maker]", "au::Inches", "decltype(au::feet)", 1, 12),
+    ("Meters->kilo(meters)[maker]", "au::Meters", "decltype(au::kilo(au::meters))", 1, 1000),
+    ("Meters->feet[maker]", "au::Meters", "decltype(au::feet)", 1250, 381),
+    ("Kilo<Meters>/Hours->meters/second[maker]", KMPH, "decltype(au::meters / au::second)", 5, 18),
+    ("Feet->Feet", "au::Feet", "au::Feet", 1, 1),
+    ("Meters->meters[maker]", "au::Meters", "decltype(au::meters)", 1, 1),
+    ("Meters->Kilo<Milli<Meters>>", "au::Meters", "au::Kilo<au::Milli<au::Meters>>", 1, 1),
+]
 
 FP = {"float": (4, 24, 8), "double": (8, 53, 11), "long double": (10, 64, 15)}   # bytes, digits, ebits
 
@@ -45,11 +65,20 @@ def predicted_domain(s, t, n, d):
 
 
 def instances():
+    """(S, T, N, D, U): the full pair x factor grid on the default shape, plus every other shape on a
+    stratified quarter of the rep pairs ((pair index + shape index) % 4 == 0)."""
     out = []
     for s in R11:
         for t in R11:
             for (n, d) in FACTORS:
-                out.append((s, t, n, d))
+                out.append((s, t, n, d, 0))
+    k = 0
+    for s in R11:
+        for t in R11:
+            for u in range(1, len(SHAPES)):
+                if (k + u) % 4 == 0:
+                    out.append((s, t, SHAPES[u][3], SHAPES[u][4], u))
+            k += 1
     return out
 
 
@@ -193,7 +222,8 @@ def confirm(v):
     if cat == "int-fp":
         x = int(v["x"])
         if kind == "ovf-unjustified":
-            return abs(Fraction(x * n, d)) <= fp_max(t), "py |x*N/D| within range of T"
+            return (abs(Fraction(x * n, d)) < fp_max(t) * (1 - Fraction(8, 2 ** (FP[t][1] - 1))),
+                    "py |x*N/D| clearly within the range of T")
         if kind == "cleared-undefined":
             return decode_fp(t, v["ybits"])[0] != "num", "py y non-finite"
         if kind == "cleared-wrong-value":
@@ -215,6 +245,21 @@ def confirm(v):
         return False, "unexpected kind for int-fp"
     c = common(s, t)
     yk, yv = decode_fp(c, v["ybits"])
+    if kind == "fp-scale-wrong":
+        xk, xv = decode_fp(s, v["xbits"])
+        if xk != "num" or yk != "num":
+            return False, "non-finite x or y is not judged"
+        exact = xv * n / d
+        mag = max(abs(exact), abs(yv))
+        digits, ebits = FP[c][1], FP[c][2]
+        e = mag.numerator.bit_length() - mag.denominator.bit_length()
+        while Fraction(2) ** e <= mag:
+            e += 1
+        while Fraction(2) ** (e - 1) > mag:
+            e -= 1
+        ue = max(e - digits, (3 - 2 ** (ebits - 1)) - digits)   # min_exponent = 3 - 2^(ebits-1)
+        err = abs(yv - exact) / Fraction(2) ** ue
+        return err > 64, "py stage-2 error %s ulp" % (int(err) if err < 10 ** 30 else ">1e30")
     if cat == "fp-int":
         ok_cast = fp_castable(yk, yv, t)
         if kind == "uncastable-not-lossy":
@@ -232,7 +277,8 @@ def confirm(v):
         if yk != "num":
             exact = abs(xv) * n / d
             return exact > fp_max(c) * (1 + Fraction(8, 2 ** (FP[c][1] - 1))), "py |x*N/D| beyond band"
-        return abs(yv) > fp_max(t), "py |y| > max(T)"
+        half = Fraction(2) ** (2 ** (FP[t][2] - 1) - FP[t][1] - 1)
+        return abs(yv) >= fp_max(t) + half, "py |y| >= max(T) + ulp/2"
     if kind == "cleared-wrong-value":
         return True, "bit compare of library results (no second route needed)"
     return False, "unexpected kind for fp-fp"
